@@ -155,7 +155,16 @@ INCLUDEStatement * INCLUDEStatement::parse(Parser& p, Context& ctx)
       throw ParseError(EXC_PARSE_NOT_LITERAL, t);
     }
     s = new INCLUDEStatement(e);
-    s->loadSource(p, ctx);
+    try
+    {
+      s->loadSource(p, ctx);
+    }
+    catch (RuntimeError& re)
+    {
+      /* the file name is evaluated at compile time: an error raised by
+       * the expression rejects the statement */
+      throw ParseError(EXC_PARSE_OTHER_S, re.what(), t);
+    }
     return s;
   }
   catch (ParseError& pe)
